@@ -21,7 +21,7 @@ func init() {
 	}
 	register(&core.Rule{ID: "R-WIRE", Props: []string{"C01", "C05"}, Doc: "startPipeline hands the output channel of stage k to stage k+1 as input (same SSA value), all stage channels distinct, finisher→source channels shared with hq/lq Start; each stage's Start stores its parameters into the fields its worker receives from / sends to", Run: ruleWire})
 	register(&core.Rule{ID: "R-FWD", Props: []string{"C01"}, Doc: "per stage worker: on every path from the receive of a seed to the next loop iteration the same value is sent on the output channel exactly once (or the worker stops via ctx.Done)", Run: ruleFwd})
-	register(&core.Rule{ID: "R-FIN", Props: []string{"C01", "C15", "C17"}, Doc: "finisher worker: exactly one of {send to produce channel, reactor.ReceiveFeedback, reactor.MarkAsFinished} per seed; the finish notification is sent at most once, only after CompleteAndCheck()==true and MarkAsFinished()==nil, and always then (unless the channel is nil); SeedsFinishedIncr exactly on those paths", Run: ruleFin})
+	register(&core.Rule{ID: "R-FIN", Props: []string{"C01", "C15", "C17", "C04"}, Doc: "finisher worker: exactly one of {send to produce channel, reactor.ReceiveFeedback, reactor.MarkAsFinished} per seed; the finish notification is sent at most once, only after CompleteAndCheck()==true and MarkAsFinished()==nil, and always then (unless the channel is nil); SeedsFinishedIncr exactly on those paths", Run: ruleFin})
 	register(&core.Rule{ID: "R-TERMINAL", Props: []string{"C01", "C11"}, Doc: "truth table of (*Item).HasWork over every ItemState constant: false exactly on {Completed, Seen, Failed}; the set of constants is the reviewed eight", Run: ruleTerminal})
 	register(&core.Rule{ID: "R-MARK", Props: []string{"C01", "C11"}, Doc: "markCompleted: only status store writes ItemCompleted, guarded by status∈{GotChildren,GotRedirected} and (no children or no child HasWork), after recursing into every child; allChildrenCompleted returns true only if no child HasWork; CompleteAndCheck returns !HasWork() after markCompleted", Run: ruleMark})
 	register(&core.Rule{ID: "R-LEVEL", Props: []string{"C01"}, Doc: "preprocess, archive, postprocess and both SeencheckItem obtain their work list from X.GetNodesAtLevel(X.GetMaxDepth()) with the same receiver X", Run: ruleLevel})
